@@ -559,7 +559,11 @@ func parse3dExtension(r *bits.EBSPReader) (*D3Extension, error) {
 	ext.DltsPresentFlag = r.ReadFlag()
 	if ext.DltsPresentFlag {
 		ext.NumDepthLayersMinus1 = uint8(r.Read(6))
+		// value shall be in the range of 0 to 8, inclusive
 		ext.BitDepthForDepthLayersMinus8 = uint8(r.Read(4))
+		if ext.BitDepthForDepthLayersMinus8 > 8 {
+			return nil, fmt.Errorf("pps_bit_depth_for_depth_layers_minus8 %d > 8", ext.BitDepthForDepthLayersMinus8)
+		}
 		for i := uint8(0); i <= ext.NumDepthLayersMinus1; i++ {
 			layer := DepthLayer{}
 			layer.DltFlag = r.ReadFlag()
@@ -571,7 +575,7 @@ func parse3dExtension(r *bits.EBSPReader) (*D3Extension, error) {
 				if layer.DltValFlagsPresentFlag {
 					// variable depthMaxValue is set equal to ( 1 << ( pps_bit_depth_for_depth_layers_minus8 + 8 ) ) − 1
 					depthMaxValue := (1 << (ext.BitDepthForDepthLayersMinus8 + 8)) - 1
-					for j := 0; j <= depthMaxValue; j++ {
+					for j := 0; j <= depthMaxValue && r.AccError() == nil; j++ {
 						layer.DltValueFlag = append(layer.DltValueFlag, r.ReadFlag())
 					}
 				} else {
@@ -607,7 +611,7 @@ func parseDeltaDlt(r *bits.EBSPReader, BitDepthForDepthLayers int) (*DeltaDlt, e
 		}
 		dd.DeltaDltVal0 = r.Read(BitDepthForDepthLayers)
 		if dd.MaxDiff > (dd.MinDiffMinus1 + 1) {
-			for k := uint(1); k < dd.NumValDeltaDlt; k++ {
+			for k := uint(1); k < dd.NumValDeltaDlt && r.AccError() == nil; k++ {
 				// variable minDiff is set equal to ( min_diff_minus1 + 1 )
 				// length of delta_val_diff_minus_min[ k ] syntax element is Ceil( Log2( max_diff − minDiff + 1 ) ) bits
 				dd.DeltaValDiffMinusMin =
